@@ -58,12 +58,23 @@ namespace riddle
                     switch (ch = next_char())
                     {
                     case '*':
-                        if ((ch = next_char()) == '/')
+                        do
+                            ch = next_char();
+                        while (ch == '*'); // '**/' closes the comment as well..
+                        if (ch == '/')
                         {
                             ch = next_char();
                             return next();
                         }
+                        else if (ch == -1)
+                        {
+                            error("unterminated comment..");
+                            return nullptr;
+                        }
                         break;
+                    case -1:
+                        error("unterminated comment..");
+                        return nullptr;
                     }
             }
             return mk_token(SLASH_ID);
